@@ -19,7 +19,8 @@ CHECKS = {
               'earlier translations and threads compare the text byte for byte. The pipeline specification E2PW (a workbook file replaced '
               'under its path, the Parser\'s cache, the written class file, executors made from the file or the text) is model-checked '
               '(with a code-shaped refinement and three deviating variants); every TLC-enumerated pipeline history is replayed on the real code '
-              'and random pipeline histories of the real code are validated against it (Trace_E2PW).'),
+              'and random pipeline histories of the real code are validated against it (Trace_E2PW); the version bookkeeping of the pipeline has an '
+              'inductive invariant discharged by Apalache (ApaPipeline).'),
         design_ref='§7 C09',
         note=NOTE_COMMON + 'Thread interleavings of the real interpreter are sampled, not enumerated; sha256 prefixes identify texts.',
         technique='TLA+ refinement (TLC) + history replay + trace validation'),
